@@ -13,6 +13,10 @@
 //!       random worlds and deeper random request paths (plus every file and directory of each world under its
 //!       spellings); stdout: one record per call {"w","h","route","uri","st","id","ct","loc","canary"} for TLC
 //!       (Trace_StaticFs), the worlds go to <worlds-out.ndjson>.
+//!   staticfs e2e <scratch-dir> <worlds-out.ndjson>
+//!       a real App on loopback (`/static/*` -> serve_dir, `/*` -> serve_as_file_path) serves one random world; every
+//!       file and directory, a list of traversal attempts and a file of several MiB fetched by a client that starts
+//!       reading 0.4 - 1 s late, over real sockets; records as above (plus "late_ms").
 //!   staticfs rerun <scratch-dir> <worlds-in.ndjson>
 //!       stdin: recorded calls; the same requests are sent again to the current tree and logged in the same format.
 //!
@@ -41,7 +45,26 @@ pub trait Backend: Sized {
     fn handlers() -> &'static [&'static str];
     /// h: handler name; `alt` selects the trailing-slash spelling of the directory.
     /// For "serve_file" `route` is the configured file path relative to the directory. Panics are caught by the caller.
-    fn call(&self, h: &str, route: &str, uri: &str, alt: bool) -> Response;
+    fn call(&self, h: &str, route: &str, req: Request, alt: bool) -> Response;
+    /// the build's real request parser on wire bytes (None: rejected)
+    fn parse(&self, wire: &[u8]) -> Option<Request>;
+    /// start a real App on 127.0.0.1:<port> with `/static/*` -> serve_dir(dir) and `/*` -> serve_as_file_path(dir);
+    /// false when this backend has no server leg
+    fn spawn_server(_dir: &'static str, _port: u16) -> bool { false }
+}
+
+/// The Request for `uri` - produced by the real parser from wire bytes whenever the uri can travel in a request
+/// line unchanged (no space, `?`, CR, LF; not empty), so that every field is filled the way production fills it;
+/// with `query` a query string is attached on the wire (it must not influence the answer).  Otherwise by hand.
+pub fn request_via<B: Backend>(b: &B, uri: &str, query: Option<&str>) -> (Request, bool) {
+    let safe = !uri.is_empty() && !uri.bytes().any(|c| c == b' ' || c == b'?' || c == b'\r' || c == b'\n');
+    if safe {
+        let wire = format!("GET {}{}{} HTTP/1.1\r\nHost: localhost\r\nAccept: */*\r\n\r\n", uri, if query.is_some() { "?" } else { "" }, query.unwrap_or(""));
+        if let Some(r) = b.parse(wire.as_bytes()) {
+            if r.uri == uri { return (r, true); }
+        }
+    }
+    (request(uri), false)
 }
 
 pub fn leak(s: String) -> &'static str {
@@ -52,7 +75,27 @@ const CANARY_MARK: &[u8] = b"HV-CANARY-MARKER";
 const FILE_MARK: &[u8] = b"HVFILE:";
 
 /// Deterministic content of file `id`; `outside` files carry the canary marker. Every byte value occurs.
-fn content(id: i64, outside: bool) -> Vec<u8> {
+/// content ids whose files have a prescribed size (StaticFs!SizeOf; the header line of TLC carries the same table)
+pub fn default_sizes() -> HashMap<i64, usize> {
+    [(5000, 0usize), (5001, 1), (5002, 255), (5003, 256), (5004, 65535), (5005, 65536), (5006, 65537), (5007, 3145729)].into_iter().collect()
+}
+
+fn content(id: i64, outside: bool, sizes: &HashMap<i64, usize>) -> Vec<u8> {
+    let mut v = content_default(id, outside);
+    if let Some(&n) = sizes.get(&id) {
+        let mut x = (id as u64).wrapping_mul(0xD1B54A32D192ED03) | 1;
+        while v.len() < n {
+            x ^= x << 13;
+            x ^= x >> 7;
+            x ^= x << 17;
+            v.push((x >> 32) as u8);
+        }
+        v.truncate(n);
+    }
+    v
+}
+
+fn content_default(id: i64, outside: bool) -> Vec<u8> {
     let mut v = Vec::new();
     if outside {
         v.extend_from_slice(CANARY_MARK);
@@ -116,7 +159,11 @@ fn parse_world(v: &Value) -> (usize, Vec<Vec<u8>>, Vec<Node>) {
 }
 
 /// Realise a world below `scratch/w<ix>` (that directory is the top node).
-fn build_world(scratch: &str, ix: usize, root: Vec<Vec<u8>>, mut nodes: Vec<Node>) -> World {
+fn build_world(scratch: &str, ix: usize, root: Vec<Vec<u8>>, nodes: Vec<Node>) -> World {
+    build_world_sized(scratch, ix, root, nodes, &default_sizes())
+}
+
+fn build_world_sized(scratch: &str, ix: usize, root: Vec<Vec<u8>>, mut nodes: Vec<Node>, sizes: &HashMap<i64, usize>) -> World {
     let top = PathBuf::from(scratch).join(format!("w{}", ix));
     let _ = std::fs::remove_dir_all(&top);
     std::fs::create_dir_all(&top).expect("create top");
@@ -128,7 +175,7 @@ fn build_world(scratch: &str, ix: usize, root: Vec<Vec<u8>>, mut nodes: Vec<Node
             std::fs::create_dir_all(&path).expect("mkdir");
         } else {
             let outside = !is_prefix(&root, &n.p);
-            let c = content(n.id, outside);
+            let c = content(n.id, outside, sizes);
             std::fs::write(&path, &c).expect("write file");
             by_content.insert(c, n.id);
         }
@@ -157,7 +204,9 @@ fn project(w: &World, r: Result<Response, ()>) -> Got {
         Ok(resp) => {
             let st: u16 = resp.status_code.into();
             let id = match w.by_content.get(&resp.body) {
-                Some(i) => *i,
+                // (an empty body is the empty file only in a 200; redirects and bare errors have empty bodies too)
+                Some(i) if !(resp.body.is_empty() && st != 200) => *i,
+                Some(_) => 0,
                 None => if find(&resp.body, FILE_MARK) || find(&resp.body, CANARY_MARK) { -1 } else { 0 },
             };
             Got {
@@ -230,18 +279,26 @@ fn replay<B: Backend>(scratch: &str, threads: usize) {
     let mut nostar: Vec<u8> = vec![];
     let mut cat: Vec<Vec<u8>> = vec![];
     let mut vectors: Vec<Value> = vec![];
+    let mut pending: Vec<Value> = vec![];
+    let mut sizes = default_sizes();
     for line in stdin_lines() {
         let v: Value = match serde_json::from_str(&line) { Ok(v) => v, Err(_) => continue };
         if v.get("world").is_some() {
-            let (ix, root, nodes) = parse_world(&v);
-            worlds.push(build_world(scratch, ix, root, nodes));
+            pending.push(v);
         } else if v.get("routes").is_some() {
+            if let Some(a) = v.get("sizes").and_then(|x| x.as_array()) {
+                sizes = a.iter().map(|p| (p[0].as_i64().unwrap(), p[1].as_u64().unwrap() as usize)).collect();
+            }
             routes = v["routes"].as_array().unwrap().iter().map(bytes_of).collect();
             nostar = bytes_of(&v["nostar"]);
             cat = v["cat"].as_array().map(|a| a.iter().map(bytes_of).collect()).unwrap_or_default();
         } else if v.get("r").is_some() || v.get("p").is_some() {
             vectors.push(v);
         }
+    }
+    for v in &pending {
+        let (ix, root, nodes) = parse_world(v);
+        worlds.push(build_world_sized(scratch, ix, root, nodes, &sizes));
     }
     worlds.sort_by_key(|w| w.ix);
     if worlds.is_empty() || routes.is_empty() {
@@ -337,7 +394,8 @@ fn replay<B: Backend>(scratch: &str, threads: usize) {
         let _ = std::fs::remove_dir_all(PathBuf::from(scratch).join(format!("w{}", w.ix)));
     }
     out_line(&json!({"summary": true, "lines": tot.lines, "worlds": worlds.len(), "evaluations": tot.evals, "nontrivial": tot.nontrivial,
-        "mismatches": tot.mism, "canary_hits": tot.canary_hits, "first": tot.first, "samples": tot.samples}));
+        "mismatches": tot.mism, "canary_hits": tot.canary_hits, "first": tot.first, "samples": tot.samples,
+        "requests_via_real_parser": VIA_PARSER.load(std::sync::atomic::Ordering::Relaxed), "requests_built_by_hand": BY_HAND.load(std::sync::atomic::Ordering::Relaxed)}));
 }
 
 // ------------------------------------------------------------------------------------------------
@@ -347,6 +405,10 @@ fn replay<B: Backend>(scratch: &str, threads: usize) {
 const NAME_POOL: &[&str] = &[
     "a", "b", "dir.d", "index.html", "index.htm", "noext", "x.txt", "y.css", "sp ace", "ü", "%41", "a..b", "...", "x:y",
     "%2e%2e", ".h", "c\\d", "file.tar.gz", "é😀.png", "A", "z.json", "INDEX.HTML", "index.html.bak", "p+q", "q?r", "h#i", "t~", "w.", "rootx", "root",
+    // Unicode classes (start / middle / end of the name), names that are only an extension, several dots, prefix-like names
+    "\u{a0}lead.txt", "trail\u{3000}", "mid\u{2028}dle.css", "\u{85}", "\u{1680}x", "\u{663}.html", "\u{ff11}\u{1d7d9}", "\u{b2}\u{bd}\u{2167}.js",
+    "\u{df}.txt", "x.\u{df}", "\u{130}.css", "\u{fb01}le.json", "e\u{301}.txt", "\u{80}c1", "c1\u{9f}", "\u{7f}", "\u{e000}", "\u{10ffff}.png",
+    ".html", ".css", "x.html.txt", "page.txt.html", "f.txt.", "static", "d\u{fc}", "s", "static.txt", "\t", "\u{1}", "*", "%", "%%", "%zz",
 ];
 const ATTACKS: &[&str] = &[
     ".", "..", "...", "", "%2e%2e", "%2E.", ".%2e", "%2f", "%5c", "%00", "%252e%252e", "%c0%ae%c0%ae", "%2e", "..%2f", "%2e%2e%2f",
@@ -392,6 +454,18 @@ fn gen_world(rng: &mut Rng, ix: usize) -> (Vec<Vec<u8>>, Vec<Node>) {
     beside(&["rootx"], "d", 0);
     beside(&["rootx", "index.html"], "f", 902);
     beside(&["a"], "f", 903);
+    // files whose sizes are boundary values (default_sizes): empty, 1 byte, around 2^16, several MiB
+    {
+        let mut z = root.clone();
+        z.push(b"z".to_vec());
+        nodes.push(Node { p: z.clone(), k: "d".into(), id: 0 });
+        for (name, id) in [("empty.txt", 5000), ("one", 5001), ("s65535.js", 5004), ("s65536.png", 5005), ("big.bin", 5007)] {
+            if id == 5007 && ix % 3 != 1 { continue; }          // the 3 MiB file in every third world
+            let mut p = z.clone();
+            p.push(name.as_bytes().to_vec());
+            nodes.push(Node { p, k: "f".into(), id });
+        }
+    }
     let mut next_id = 1 + (ix as i64 % 7);
     // breadth-first random tree, depth <= 3
     let mut frontier: Vec<(Vec<Vec<u8>>, usize)> = vec![(root.clone(), 0)];
@@ -442,6 +516,24 @@ fn random<B: Backend>(nworlds: usize, per_world: usize, scratch: &str, worlds_ou
             }
         }
         rels.push(vec![]);
+        // absolute components: the real absolute path of the canary / of an inside file after one or more slashes
+        // (a handler that joins with Path::join would let them replace the directory)
+        {
+            let top = PathBuf::from(scratch).join(format!("w{}", wi));
+            let canary_abs = names_to_path(&top, &[&w.root_names[..w.root_names.len() - 1], &[b"canary.txt".to_vec()][..]].concat());
+            let mut abs: Vec<Vec<u8>> = vec![canary_abs.to_str().unwrap().as_bytes().to_vec()];
+            if let Some(n) = inside.iter().find(|n| n.k == "f") {
+                if let Some(sp) = names_to_path(&top, &n.p).to_str() { abs.push(sp.as_bytes().to_vec()); }
+            }
+            for a in abs {
+                let no_lead = a[1..].to_vec();
+                rels.push(a.clone());                                            // "/abs" -> uri "//abs" under "/*"
+                rels.push([b"/".to_vec(), a.clone()].concat());
+                rels.push([b"%2f".to_vec(), no_lead.clone()].concat());
+                rels.push([b"%2F%2f".to_vec(), no_lead.clone()].concat());
+                rels.push(no_lead);
+            }
+        }
         // random deeper paths: names of the world, attack spellings, random encodings
         for _ in 0..per_world {
             let depth = rng.range(1, 8);
@@ -504,6 +596,24 @@ fn random<B: Backend>(nworlds: usize, per_world: usize, scratch: &str, worlds_ou
                 }
             }
         }
+        // the cache of the directory route must not confuse paths that differ only by trailing slashes: a file, then
+        // the file with a slash (404); a directory with a slash (its index), then without (301); in both orders
+        if B::handlers().contains(&"directory_cached") {
+            for (ni, n) in inside.iter().enumerate() {
+                let names = &n.p[w.root_names.len()..];
+                let lib: Vec<u8> = names.iter().map(|x| x.percent_encode().into_bytes()).collect::<Vec<_>>().join(&b'/');
+                let route = routes[(ni + wi) % routes.len()].as_bytes().to_vec();
+                let base = [prefix_of(&route), lib].concat();
+                let with = [base.clone(), b"/".to_vec()].concat();
+                let with2 = [base.clone(), b"//".to_vec()].concat();
+                let order: Vec<&Vec<u8>> = if (ni + wi) % 2 == 0 { vec![&base, &with, &with2, &base, &with] } else { vec![&with, &base, &with2, &with, &base] };
+                for uri in order {
+                    let g = call(&hs, &w, "directory_cached", std::str::from_utf8(&route).unwrap(), std::str::from_utf8(uri).unwrap(), false);
+                    out_line(&json!({"w": wi, "h": "directory", "route": route, "uri": uri, "st": g.st, "id": g.id, "ct": g.ct,
+                        "loc": g.loc, "canary": g.canary || g.panic}));
+                }
+            }
+        }
         // serve_file: a configured path (file, directory, nothing) answers every uri the same way
         if B::handlers().contains(&"serve_file") {
             let mut cfgs: Vec<Vec<u8>> = inside.iter().map(|n| n.p[w.root_names.len()..].join(&b'/')).collect();
@@ -546,8 +656,139 @@ fn rerun<B: Backend>(scratch: &str, worlds_in: &str) {
     }
 }
 
+// ------------------------------------------------------------------------------------------------
+// end to end: a real App on loopback (routing, the real request parser, the real response writer)
+// ------------------------------------------------------------------------------------------------
+
+/// One HTTP/1.1 exchange with `Connection: close`.  The client starts reading `late_ms` after it has sent the request
+/// (a body of several MiB then fills the socket buffers and the server has to keep writing) and reads in small pieces.
+/// Waiting is generous and only in the "must complete" direction: no complete answer within 120 s is reported as st = 0.
+fn fetch(port: u16, target: &[u8], late_ms: u64) -> Option<(u16, String, Vec<u8>, Vec<u8>)> {
+    use std::io::{Read, Write};
+    use std::time::Duration;
+    let mut s = std::net::TcpStream::connect(("127.0.0.1", port)).ok()?;
+    s.set_read_timeout(Some(Duration::from_secs(120))).ok()?;
+    s.set_write_timeout(Some(Duration::from_secs(120))).ok()?;
+    let mut wire = b"GET ".to_vec();
+    wire.extend_from_slice(target);
+    wire.extend_from_slice(b" HTTP/1.1\r\nHost: localhost\r\nConnection: close\r\n\r\n");
+    s.write_all(&wire).ok()?;
+    if late_ms > 0 { std::thread::sleep(Duration::from_millis(late_ms)); }
+    let mut buf: Vec<u8> = vec![];
+    let mut chunk = vec![0u8; if late_ms > 0 { 1500 } else { 65536 }];
+    let head_end;
+    loop {
+        if let Some(i) = buf.windows(4).position(|w| w == b"\r\n\r\n") { head_end = i + 4; break; }
+        let n = s.read(&mut chunk).ok()?;
+        if n == 0 { return None; }
+        buf.extend_from_slice(&chunk[..n]);
+    }
+    let head = String::from_utf8_lossy(&buf[..head_end]).to_string();
+    let mut lines = head.split("\r\n");
+    let st: u16 = lines.next()?.split(' ').nth(1)?.parse().ok()?;
+    let (mut ct, mut loc, mut cl) = (String::new(), vec![], None);
+    for l in lines {
+        if let Some((k, v)) = l.split_once(':') {
+            let v = v.trim_start();
+            match k.to_ascii_lowercase().as_str() {
+                "content-type" => ct = v.to_string(),
+                "location" => loc = v.as_bytes().to_vec(),
+                "content-length" => cl = v.parse::<usize>().ok(),
+                _ => {}
+            }
+        }
+    }
+    let mut body = buf[head_end..].to_vec();
+    match cl {
+        Some(n) => {
+            while body.len() < n {
+                let k = s.read(&mut chunk).ok()?;
+                if k == 0 { return None; }                 // closed before Content-Length bytes arrived
+                body.extend_from_slice(&chunk[..k]);
+            }
+            body.truncate(n);
+        }
+        None => { s.read_to_end(&mut body).ok()?; }
+    }
+    Some((st, ct, loc, body))
+}
+
+fn e2e<B: Backend>(scratch: &str, worlds_out: &str) {
+    use std::io::Write;
+    let mut rng = Rng::from_env();
+    let (root, nodes) = gen_world(&mut rng, 1);                 // world 1 carries the 3 MiB file
+    let nodes_json: Vec<Value> = nodes.iter().map(|n| json!({"p": n.p, "k": n.k, "id": n.id})).collect();
+    let mut wf = std::fs::File::create(worlds_out).expect("worlds out");
+    writeln!(wf, "{}", json!({"world": 1, "root": root, "nodes": nodes_json})).unwrap();
+    let w = build_world(scratch, 1, root, nodes);
+    let port = { let l = std::net::TcpListener::bind("127.0.0.1:0").expect("bind"); l.local_addr().unwrap().port() };
+    if !B::spawn_server(leak(w.root_dir.clone()), port) { return; }
+    let mut up = false;
+    for _ in 0..600 {
+        if std::net::TcpStream::connect(("127.0.0.1", port)).is_ok() { up = true; break; }
+        std::thread::sleep(std::time::Duration::from_millis(100));
+    }
+    if !up { eprintln!("staticfs e2e: the server did not come up"); std::process::exit(2); }
+    let inside: Vec<&Node> = w.nodes.iter().filter(|n| is_prefix(&w.root_names, &n.p) && n.p.len() > w.root_names.len()).collect();
+    // (target on the wire, reader delay)
+    let mut targets: Vec<(Vec<u8>, u64)> = vec![];
+    for n in &inside {
+        let names = &n.p[w.root_names.len()..];
+        let lib: Vec<u8> = names.iter().map(|x| x.percent_encode().into_bytes()).collect::<Vec<_>>().join(&b'/');
+        let raw: Vec<u8> = names.join(&b'/');
+        let big = n.id == 5007;
+        targets.push(([b"/static/".to_vec(), lib.clone()].concat(), if big { 700 } else { 0 }));
+        if n.k == "d" { targets.push(([b"/static/".to_vec(), lib.clone(), b"/".to_vec()].concat(), 0)); }
+        targets.push(([b"/".to_vec(), raw].concat(), if big { 400 } else { 0 }));
+        if big { targets.push(([b"/static/".to_vec(), lib, b"?late=1".to_vec()].concat(), 1000)); }
+    }
+    let top = PathBuf::from(scratch).join("w1");
+    let canary_abs = names_to_path(&top, &[&w.root_names[..w.root_names.len() - 1], &[b"canary.txt".to_vec()][..]].concat());
+    let canary_abs = canary_abs.to_str().unwrap().as_bytes().to_vec();
+    for t in ["/static/", "/static", "/", "/static/../canary.txt", "/static/%2e%2e/canary.txt", "/static/%2E%2e%2fcanary.txt", "/../canary.txt", "/..%2fcanary.txt",
+              "/%2e%2e/canary.txt", "/static/..%2f..%2findex.html", "/../index.html", "/static/%252e%252e/canary.txt", "/static/%c0%ae%c0%ae/canary.txt",
+              "/static/%00", "/static/z/empty.txt?x=/../../canary.txt", "/z/empty.txt?x=..", "/static/z/empty.txt/", "/static//z//one", "/static/./z/./one"] {
+        targets.push((t.as_bytes().to_vec(), 0));
+    }
+    targets.push(([b"/".to_vec(), canary_abs.clone()].concat(), 0));
+    targets.push(([b"/static/".to_vec(), canary_abs.clone()].concat(), 0));
+    targets.push(([b"/static//".to_vec(), canary_abs[1..].to_vec()].concat(), 0));
+    for (target, late) in targets {
+        if target.iter().any(|c| *c == b' ' || *c == b'\r' || *c == b'\n' || *c == b'#') || std::str::from_utf8(&target).is_err() { continue; }
+        let uri: Vec<u8> = target.split(|c| *c == b'?').next().unwrap().to_vec();
+        if uri.len() != target.len() && target[..uri.len()].contains(&b'?') { continue; }
+        // which route answers: `/static/*` is registered first
+        let (h, route): (&str, Vec<u8>) = if uri.starts_with(b"/static/") { ("serve_dir", b"/static/*".to_vec()) } else { ("file_path", vec![]) };
+        let g = match fetch(port, &target, late) {
+            Some((st, ct, loc, body)) => {
+                let id = match w.by_content.get(&body) {
+                    Some(i) if !(body.is_empty() && st != 200) => *i,
+                    Some(_) => 0,
+                    None => if find(&body, FILE_MARK) || find(&body, CANARY_MARK) { -1 } else { 0 },
+                };
+                Got { st, id, ct, loc, canary: find(&body, CANARY_MARK), panic: false }
+            }
+            None => Got { st: 0, id: 0, ct: String::new(), loc: vec![], canary: false, panic: true },
+        };
+        out_line(&json!({"w": 1, "h": h, "route": route, "uri": uri, "st": g.st, "id": g.id, "ct": g.ct, "loc": g.loc,
+            "canary": g.canary || g.panic, "late_ms": late}));
+    }
+    let _ = std::fs::remove_dir_all(top);
+    std::process::exit(0);                                        // the App has no handle to stop it
+}
+
+pub static VIA_PARSER: std::sync::atomic::AtomicU64 = std::sync::atomic::AtomicU64::new(0);
+pub static BY_HAND: std::sync::atomic::AtomicU64 = std::sync::atomic::AtomicU64::new(0);
+
 fn call<B: Backend>(b: &B, w: &World, h: &str, route: &str, uri: &str, alt: bool) -> Got {
-    let r = std::panic::catch_unwind(std::panic::AssertUnwindSafe(|| b.call(h, route, uri, alt)));
+    use std::sync::atomic::Ordering::Relaxed;
+    let r = std::panic::catch_unwind(std::panic::AssertUnwindSafe(|| {
+        // every fourth uri travels with a query string full of dot-dot segments: it is not part of the path
+        let query = if fnv64(uri.as_bytes()) % 4 == 0 { Some("next=/../../canary.txt&p=%2e%2e%2f") } else { None };
+        let (req, parsed) = request_via(b, uri, query);
+        if parsed { VIA_PARSER.fetch_add(1, Relaxed); } else { BY_HAND.fetch_add(1, Relaxed); }
+        b.call(h, route, req, alt)
+    }));
     project(w, r.map_err(|_| ()))
 }
 
@@ -558,6 +799,7 @@ pub fn main_with<B: Backend>() {
         Some("replay") if a.len() >= 3 => replay::<B>(&a[2], a.get(3).and_then(|s| s.parse().ok()).unwrap_or(8)),
         Some("random") if a.len() >= 6 => random::<B>(a[2].parse().unwrap(), a[3].parse().unwrap(), &a[4], &a[5]),
         Some("rerun") if a.len() >= 4 => rerun::<B>(&a[2], &a[3]),
+        Some("e2e") if a.len() >= 4 => e2e::<B>(&a[2], &a[3]),
         _ => {
             eprintln!("usage: staticfs replay <scratch> [threads] | random <worlds> <per-world> <scratch> <worlds-out> | rerun <scratch> <worlds-in>");
             std::process::exit(2)
